@@ -45,6 +45,9 @@ type Plan struct {
 	Unroll  map[string]bool `json:"unroll"`
 	Only    []string        `json:"only"`
 	Testify bool            `json:"testify"`
+	TCases  []TCase           `json:"tcases"`   // history classes exported by spec/TestifyConcCases.tla (testify_cases.go)
+	UnrollS map[string]string `json:"unroll_s"` // testify package -> unroll-variadic setting as spelled in the config: false | unset | true
+	SnapMs  int             `json:"snap_ms"` // duration of the reader || resetter || caller round per with-resets mock
 }
 
 type Failure struct {
@@ -444,6 +447,75 @@ func (t *mtarget) stressRound(mode string, G, K int, withResets bool, kOffset in
 	stat("calls", int64(G*K))
 }
 
+// snapshotRound: readers || resetters || callers for a fixed time.  The oracle is applied to what ACalls() RETURNS while
+// resets run: every returned record was produced by an actual call (all its fields decode to one (g,k), never the zero
+// value: every argument is non-zero), no call twice, per goroutine in call order (k increasing) -- checkLog on each
+// snapshot.  The resetters pause for varying short times so that the log has some length when it is emptied.
+func (t *mtarget) snapshotRound(mode string, G int, dur time.Duration) {
+	var stop int32
+	var wg sync.WaitGroup
+	for g := 1; g <= G; g++ {
+		wg.Add(1)
+		go func(g int) {
+			defer wg.Done()
+			defer func() {
+				if p := recover(); p != nil {
+					fail(t.name, mode, "panic", fmt.Sprint(p))
+				}
+			}()
+			k := 0
+			for ; atomic.LoadInt32(&stop) == 0 && k < kBase-2; k++ {
+				t.call(t.a, code(g, k))
+			}
+			stat("snapshot_calls", int64(k))
+		}(g)
+	}
+	for r := 0; r < 2; r++ {
+		wg.Add(1)
+		go func(r int) {
+			defer wg.Done()
+			n := 0
+			for ; atomic.LoadInt32(&stop) == 0; n++ {
+				if (n+r)%2 == 0 {
+					t.resetA.Call(nil)
+				} else {
+					t.resetA2.Call(nil)
+				}
+				if n%4 == 3 {
+					runtime.Gosched()
+				} else {
+					time.Sleep(time.Duration(5+(n%7)*10) * time.Microsecond)
+				}
+			}
+			stat("snapshot_resets", int64(n))
+		}(r)
+	}
+	for r := 0; r < 4; r++ {
+		wg.Add(1)
+		go func() {
+			defer wg.Done()
+			defer func() {
+				if p := recover(); p != nil {
+					fail(t.name, mode+"/concurrent-read", "panic", "while reading the recorded calls: "+fmt.Sprint(p))
+				}
+			}()
+			n, nonEmpty := 0, 0
+			for ; atomic.LoadInt32(&stop) == 0; n++ {
+				recs := t.read(t.aCalls)
+				if len(recs) > 0 {
+					nonEmpty++
+				}
+				t.checkLog(mode+"/concurrent-read", recs)
+			}
+			stat("snapshot_reads", int64(n))
+			stat("snapshot_reads_nonempty", int64(nonEmpty))
+		}()
+	}
+	time.Sleep(dur)
+	atomic.StoreInt32(&stop, 1)
+	wg.Wait()
+}
+
 // recorder reports whether the mock accepts calls while its MFunc fields are nil (stub-impl): found by trying
 func (t *mtarget) recorder() (ok bool) {
 	defer func() {
@@ -478,6 +550,13 @@ func (t *mtarget) stressWith(plan *Plan, rng *rand.Rand, nilFuncs bool) {
 		K = K/2 + 1
 	}
 	hasResets := t.resetA.IsValid() && t.resetA2.IsValid() && t.resetB.IsValid()
+	if hasResets && plan.SnapMs > 0 {
+		ms := plan.SnapMs
+		if nilFuncs {
+			ms = ms/2 + 1
+		}
+		fresh().snapshotRound(pre+"snapshots-under-reset", 3, time.Duration(ms)*time.Millisecond)
+	}
 	for round := 0; round < plan.Rounds; round++ {
 		// fresh instance per round
 		t2 := fresh()
@@ -942,6 +1021,7 @@ func main() {
 			}
 			out.Targets = append(out.Targets, name)
 			testifyStress(name, testifyReg[name], plan.Unroll[strings.SplitN(name, "/", 2)[0]], &plan)
+			testifyCases(name, testifyReg[name], plan.UnrollS[strings.SplitN(name, "/", 2)[0]], plan.TCases)
 		}
 	}
 	bb, _ := json.Marshal(out)
